@@ -480,6 +480,17 @@ func checkC16(r *Result) {
 		}
 		r.check(okAll && n > 0 && len(ps.Matched["first"]) > 0, "SLOTS", "(x/bridge/keeper.Keeper).SetBridgeValsetSignature # every success return stored the signature, except for the first checkpoint", P.Pos(ss.Pos()), fmt.Sprintf("%d success returns", n))
 	}
+	// the set that is hashed is the set that is stored: the per-validator powers collected for the encoder are
+	// distinct values (big.Int methods return their receiver, a reused scratch value makes all entries equal)
+	{
+		sites := bigIntLoopSites(P, func(fn *ssa.Function) bool {
+			return FuncName(TopFunc(fn)) == "(x/bridge/keeper.Keeper).EncodeAndHashValidatorSet"
+		})
+		for _, s := range sites {
+			r.check(s.fresh, "COHORT", s.fn+" # the power hashed for each validator is a value of that validator (not a reused big.Int)", s.pos, "origin: "+s.origin+fmt.Sprintf(" ; allocated in this iteration: %v", s.fresh))
+		}
+		r.check(len(sites) >= 1, "COHORT", "(x/bridge/keeper.Keeper).EncodeAndHashValidatorSet # collects one power per validator", "-", fmt.Sprint(len(sites)))
+	}
 	r.minCount("MEMBERSHIP", 3)
 	r.minCount("UPDATE-RULE", 5)
 	r.minCount("COHORT", 7)
